@@ -299,6 +299,31 @@ func solveOb(o *Obligation, qdir string, timeoutS int, thorough bool, expectSat 
 		all = append(all, r)
 		return r, all, full
 	}
+	if o.Kind == "lemma" {
+		// a lemma is a closed arithmetic statement over fresh constants: all three solvers at once on the complete query
+		// (cvc5 decides the nonlinear remainder lemmas on which both z3 versions give up)
+		full := writeQuery(qdir, base, o.BuildQuery(false, false))
+		lch := make(chan SolverResult, 3)
+		for _, sv := range []string{"cvc5", "z3-new", "z3"} {
+			go func(sv string) {
+				x := runSolver(sv, full, timeoutS)
+				x.Solver = sv
+				lch <- x
+			}(sv)
+		}
+		var best SolverResult
+		for k := 0; k < 3; k++ {
+			x := <-lch
+			all = append(all, x)
+			if k == 0 || (best.Status != "unsat" && (x.Status == "unsat" || x.Status == "sat")) {
+				best = x
+			}
+			if x.Status == "unsat" && !thorough {
+				break
+			}
+		}
+		return best, all, full
+	}
 	// micro: only hypotheses within three trigger steps of the goal
 	micro := writeQuery(qdir, base+".micro", o.BuildQueryD(false, true, true, true, 1.0, 3))
 	gm := runSolver("z3-new", micro, minInt(timeoutS, 1))
